@@ -25,7 +25,10 @@ DEGENERATE = [
     "@include\n", '@include "nope"\n', '@incbin "nope"\n', "@segment\n", '@segment "X"\n', '@segment "ADDR"\n nop\n', '@segment "ADDR"\n@incbin "x"\n',
     "@macro 5\n", "@macro M\n", "@macro M,\n", "@macro M, x\n", "@macro M, 1\n", "@macro M, 1,\n", "@macro M, 1, .p\n@endmacro\n", "@struct 5\n", "@struct S\n 5\n",
     "lab: nop\n@defl foo, @sizeof lab\n", '"unterminated\n', "'ab\n", "''\n", "'abcde'\n", '"\\q"\n', '"\\$zz"\n', '"\\$4"\n', "$\n", "$zz\n", "%2\n", "99999999999\n",
-    "\\\n", "\\ x\n", "@db 1 \\", "a: a:\n", "@defl a, 1\n@defl a, 2\n", "@die\n", '@die "x"\n', "@die 5\n", "@echo\n", "@assert\n", "@assert 0\n", '@assert 0, "m"\n', "@assert 1,\n",
+    "\\\n", "\\ x\n", "@db 1 \\",
+    # a continuation backslash as the very last character, after every kind of statement / directive operand
+    "@count 3 \\", "@db @hex 3 \\", "@db @bin 5\\", "@each T, {1 2} \\", "@db @string {1} \\", "@label {a} \\", '@db @getmeta x, "k" \\', "@db @isdef x \\",
+    "@macro M, 0\n@db 1\n@endmacro\nM \\", "@macro M, 1, P\n@db P\n@endmacro\nM 1 \\", '@incbin "m.asm" \\', "@if 1 \\", "@db @count 2 \\", "@parse \"@count 1\" \\", "nop \\", "lab: \\", "@org 5 \\", "@ds 2 \\", "@struct S \\", "a: a:\n", "@defl a, 1\n@defl a, 2\n", "@die\n", '@die "x"\n', "@die 5\n", "@echo\n", "@assert\n", "@assert 0\n", '@assert 0, "m"\n', "@assert 1,\n",
     "@db 1 ? 2\n", "@db ( 1\n", "@db )\n", "@db 1 +\n", "@db ~\n", "@db @here @here\n", "@dw <\n", "@db @db\n",
 ]
 
@@ -155,7 +158,12 @@ def run(tier, seed):
         out_hist[kind] = out_hist.get(kind, 0) + 1
         if kind == "HANG":
             hangs += 1
-            chk.notes.append(f"hang (outside the size bound?): {data[:120]!r}")
+            if len(data) <= 4096 and b"@include" not in data:
+                chk.violation(f"hang:{fam}", f"the assembler did not terminate on a {len(data)}-byte input ({arch}): {data[:300]!r}",
+                              {"arch": arch, "source_hex": data.hex(), "source": data.decode("utf-8", "replace"), "opts": opts,
+                               "how_to_rerun": "write the bytes to m.asm and run `timeout 10 az65 <arch> m.asm`"})
+            else:
+                chk.notes.append(f"hang (outside the size bound?): {data[:120]!r}")
             continue
         if kind in ("CRASH", "ABORT", "MISSING"):
             msg = C.unhexs(im[1]) if kind == "CRASH" and len(im) > 1 else " ".join(im[1:])
